@@ -50,6 +50,26 @@ theorem capFreeL_wf : ∀ ts : List Ty, capFreeL ts = true → Ty.wfL ts = true
     exact ⟨capFree_wf t h.1, capFreeL_wf ts h.2⟩
 end
 
+mutual
+theorem setFree_of_plain : ∀ t : Ty, t.plain = true → t.setFree = true
+  | .set _, h => by simp [Ty.plain] at h
+  | .capsule _, h => by simp [Ty.plain] at h
+  | .list e, h => by simp only [Ty.plain] at h; simp only [Ty.setFree]; exact setFree_of_plain e h
+  | .map e, h => by simp only [Ty.plain] at h; simp only [Ty.setFree]; exact setFree_of_plain e h
+  | .tuple ts, h => by simp only [Ty.plain] at h; simp only [Ty.setFree]; exact setFreeL_of_plainL ts h
+  | .object _ ts _, h => by simp only [Ty.plain] at h; simp only [Ty.setFree]; exact setFreeL_of_plainL ts h
+  | .bool, _ => rfl
+  | .number, _ => rfl
+  | .string, _ => rfl
+  | .dyn, _ => rfl
+theorem setFreeL_of_plainL : ∀ ts : List Ty, Ty.plainL ts = true → Ty.setFreeL ts = true
+  | [], _ => rfl
+  | t :: ts, h => by
+    simp only [Ty.plainL, Bool.and_eq_true] at h
+    simp only [Ty.setFreeL, Bool.and_eq_true]
+    exact ⟨setFree_of_plain t h.1, setFreeL_of_plainL ts h.2⟩
+end
+
 theorem canonAll_length (e : Ty) (vs : List Payload) : (canonAll e vs).length = vs.length := by
   simp [canonAll_eq_map]
 
